@@ -205,6 +205,7 @@ class Ctx:
         self.coverage["leanchecker"] = "ok" if ok else p.stdout[-500:]
         if not ok:
             self.lean_ok = False
+            self.notes.append("leanchecker failed: " + p.stdout[-300:])
         return ok
 
     def oracle_bin(self):
@@ -330,6 +331,9 @@ class Ctx:
         if len(set(cnt)) != 1:
             self.l1_disagreements.append({"label": label, "op": f"<line counts differ: ops/impl/model = {cnt}>", "impl": "", "model": ""})
         self.l1_cases += n
+        self.l1_calls = getattr(self, "l1_calls", 0) + 1
+        if n == 0:
+            self.coverage["l1_empty_legs"] = self.coverage.get("l1_empty_legs", []) + [label]
         self.coverage["l1_distinct_ops"] = self.coverage.get("l1_distinct_ops", 0) + len(distinct)
         return n
 
@@ -375,6 +379,16 @@ class Ctx:
             missing = [t for t in self.obligations if t not in self.discharged]
             self.violation("proof-obligation", "theorems no longer checked: " + ", ".join(missing[:8]),
                            "; ".join(self.notes + getattr(self, "lean_errors", []))[:2000], no_input=True)
+        # the Lean side failed in a way that leaves every LISTED theorem discharged (banned construct in a
+        # module, a disallowed axiom below a helper lemma, closure audit did not run, leanchecker failure):
+        # fail closed
+        if self.lean_ok is False and not have_input and not any(v["kind"] == "proof-obligation" for v in self.violations):
+            self.violation("proof-obligation", "Lean audit failed: " + "; ".join(self.notes[:6]),
+                           "; ".join(self.notes + getattr(self, "lean_errors", []))[:2000], no_input=True)
+        # the correspondence ran (l1 was called) but compared nothing at all: fail closed
+        if getattr(self, "l1_calls", 0) > 0 and self.l1_cases == 0 and not have_input and not self.l1_disagreements:
+            self.violation("correspondence-coverage", "<the drivers produced no case to compare>",
+                           f"ctx.l1 was called {self.l1_calls} time(s) and compared 0 cases", no_input=True)
         if self.l1_disagreements and not have_input:
             d = next((x for x in self.l1_disagreements if x), None)
             self.violation("correspondence", d["op"] if d else "",
@@ -399,6 +413,9 @@ class Ctx:
             "driver_stats": dict(sorted(self.stats.items())),
             "explanation": explanation,
         }
+        cov["tree"] = tree_identity()
+        if self.notes:
+            cov["notes"] = self.notes[:40]
         cov.update({k: v for k, v in self.coverage.items() if k not in cov})
         if extra_cov:
             cov.update(extra_cov)
@@ -446,6 +463,19 @@ class Ctx:
         else:
             shutil.rmtree(self.tmp, ignore_errors=True)
         return rc
+
+
+def tree_identity():
+    """Which trees this run looked at (so that an evidence file can be matched to a commit)."""
+    def git(cwd, *a):
+        try:
+            return subprocess.run(["git", "-C", cwd] + list(a), stdout=subprocess.PIPE, stderr=subprocess.DEVNULL,
+                                  text=True, timeout=60).stdout.strip()
+        except Exception:
+            return "?"
+    return {"repo_path": REPO, "repo_head": git(REPO, "rev-parse", "--short", "HEAD"),
+            "repo_dirty_files": len([l for l in git(REPO, "status", "--porcelain", "--untracked-files=no").splitlines() if l]),
+            "verif_head": git(ROOT, "rev-parse", "--short", "HEAD")}
 
 
 def clip(s, n=300):
